@@ -19,6 +19,8 @@ def run(tier, seed, pid="C03"):
         r = vlib.tlc(pid, qc.FAMILY, "QBFTMC", cfg, timeout=to)
         vlib.require_mc_ok(r, cfg)
         o.add_mc(cfg, r)
+    for cfg in (["QBFTMC_sim4cmp.cfg"] if not thorough else ["QBFTMC_sim4cmp.cfg", "QBFTMC_sim4.cfg"]):
+        vlib.simulate_timeboxed(o, qc.FAMILY, "QBFTMC", cfg, 200 if thorough else 25, seed=seed, workers=8 if thorough else 4)
     gen = []
     for k, (inst, byz, inputs, cf) in enumerate([(1, "", "InputsB", ""), (0, "2", "InputsB", "1001")]
                                                 + ([(2, "", "InputsA", "2"), (3, "0", "InputsC", "")] if thorough else [])):
